@@ -25,6 +25,7 @@ import (
 // ---------------------------------------------------------------- -rate
 
 type c19Rate struct {
+	Before    []string // valid -rate values given earlier on the same command line
 	Text      string
 	MayReject bool  // notation the manual does not mention (leading +): if accepted it must mean N/D
 	Reject    bool  // malformed: must be rejected
@@ -50,6 +51,12 @@ func runC19Rate(c c19Rate) error {
 	rate := vegeta.Rate{Freq: 50, Per: time.Second} // the command's default
 	f := &rateFlag{&rate}
 	var err error
+	// the flag may be repeated: earlier (valid) values must not influence the meaning of the last one
+	for _, prev := range c.Before {
+		if perr := vh.Try(func() { err = f.Set(prev) }); perr != nil || err != nil {
+			return fmt.Errorf("-rate=%q (given before -rate=%q): %v %v", prev, c.Text, perr, err)
+		}
+	}
 	if perr := vh.Try(func() { err = f.Set(c.Text) }); perr != nil {
 		return fmt.Errorf("-rate=%q panics: %v", c.Text, perr)
 	}
@@ -186,6 +193,13 @@ func TestC19Rate(t *testing.T) {
 	vh.Regress(t, "C19")
 	vh.Check(t, 1500, 60000, func(t *rapid.T) {
 		c := c19GenRate(t)
+		if !c.Reject && rapid.IntRange(0, 2).Draw(t, "repeated") == 0 {
+			for i := rapid.IntRange(1, 2).Draw(t, "nbefore"); i > 0; i-- {
+				if p := c19GenRate(t); !p.Reject && !p.MayReject {
+					c.Before = append(c.Before, p.Text)
+				}
+			}
+		}
 		nt := !c.Reject && (c.Unlimited || c.Per != 1e9 || strings.Contains(c.Text, "/"))
 		lab := "finite"
 		if c.Reject {
@@ -193,7 +207,10 @@ func TestC19Rate(t *testing.T) {
 		} else if c.Unlimited {
 			lab = "unlimited"
 		}
-		vh.Case("C19.rate", c.Text, nt, lab)
+		if len(c.Before) > 0 {
+			lab += "+repeated-flag"
+		}
+		vh.Case("C19.rate", strings.Join(c.Before, " ")+" "+c.Text, nt, lab)
 		vh.Sample("C19.rate", nt, c)
 		if err := runC19Rate(c); err != nil {
 			vh.Fail(t, "C19", "C19.rate", c, err)
@@ -436,8 +453,8 @@ func runC19ConnectTo(c c19ConnectTo) error {
 
 func TestC19ConnectTo(t *testing.T) {
 	vh.Check(t, 600, 30000, func(t *rapid.T) {
-		host := rapid.OneOf(rapid.SampledFrom([]string{"localhost", "google.com", "127.0.0.1", "10.0.0.1", "a-b.example.org"}),
-			rapid.StringMatching(`[a-z][a-z0-9-]{0,8}(\.[a-z]{2,4})?`), rapid.StringMatching(`(25[0-5]|1[0-9]{2}|[1-9]?[0-9])\.[0-9]{1,2}\.[0-9]{1,2}\.[0-9]{1,2}`))
+		host := rapid.OneOf(rapid.SampledFrom([]string{"localhost", "google.com", "127.0.0.1", "10.0.0.1", "a-b.example.org", "Example.COM", "LocalHost"}),
+			rapid.StringMatching(`[a-zA-Z][a-zA-Z0-9-]{0,8}(\.[a-zA-Z]{2,4})?`), rapid.StringMatching(`(25[0-5]|1[0-9]{2}|[1-9]?[0-9])\.[0-9]{1,2}\.[0-9]{1,2}\.[0-9]{1,2}`))
 		port := rapid.OneOf(rapid.SampledFrom([]string{"80", "443", "6060", "1", "65535", "8080"}), rapid.StringMatching(`[1-9][0-9]{0,3}`))
 		var c c19ConnectTo
 		n := rapid.IntRange(1, 8).Draw(t, "n")
